@@ -107,3 +107,121 @@ def parse_option_list(v: str):
         bad = (nums[2], nums[3]) if "Some (" in p[5:] else None
         out.append({"flags": nums[0], "defined": nums[1], "bad": bad, "sorted": bools[-3], "wf": bools[-2], "linear": bools[-1]})
     return out
+
+
+LAYOUT_HEADER = """From Coq Require Import ZArith NArith List Bool String.
+From RZ.sem Require Import RzIL CBody.
+Import ListNotations.
+Local Open Scope string_scope.
+Local Open Scope Z_scope.
+Local Open Scope list_scope.
+(* 0 = both denote the same effect; 1 = differ; 2 = one of them does not denote *)
+Definition same_layout (c : body * body) : N :=
+  match denote (fst c), denote (snd c) with
+  | Some a, Some b => if effect_eqb (canon a) (canon b) then 0 else 1
+  | _, _ => 2
+  end%N.
+Definition mentions (b : body) (x : string) : bool :=
+  existsb (fun u => String.eqb (fst u) x) (flat_map (fun d => uses false (dinit d)) (decls b) ++ uses false (ret b)).
+"""
+
+
+def layouts_equal(prop: str, pairs: list[tuple[str, iltext.Body, iltext.Body]], shard=80, timeout=900) -> dict:
+    """pairs: (id, body in layout A, body in layout B) -> {id: (code, mentions_hi_A, mentions_pkt_A, mentions_hi_B, mentions_pkt_B)}"""
+    files = {}
+    ids = [p[0] for p in pairs]
+    shard = max(10, min(shard, -(-len(pairs) // common.NPROC)))
+    for k in range(0, len(pairs), shard):
+        rows = ";\n".join(f"({a.coq()}, {b.coq()})" for _, a, b in pairs[k:k + shard])
+        files[f"lay_{k // shard:04d}"] = (LAYOUT_HEADER + f"Definition cases : list (body * body) := [\n{rows}\n].\n"
+                                         "Eval vm_compute in (map (fun c => (same_layout c, mentions (fst c) \"hi\", mentions (fst c) \"pkt\", mentions (snd c) \"hi\", mentions (snd c) \"pkt\")) cases).\n")
+    ok, outs, err = common.run_case_files(prop + "_lay", files, timeout=timeout)
+    if not ok:
+        raise RuntimeError("layout case files failed: " + err[-2500:])
+    res = {}
+    for name in sorted(outs):
+        k = int(name.split("_")[1]) * shard
+        v = common.coq_printed_values(outs[name])[0].replace("%N", "")
+        items = re.findall(r"\((\d+),\s*(true|false),\s*(true|false),\s*(true|false),\s*(true|false)\)", v)
+        for j, it in enumerate(items):
+            res[ids[k + j]] = (int(it[0]),) + tuple(x == "true" for x in it[1:])
+    return res
+
+
+def offenders(prop: str, items: list[tuple[str, iltext.Body]], timeout=600) -> dict:
+    """symptom classes of bodies failing wf_body / linear: {id: {"wf": [...], "linear": [(kind, head, raw, any), ...]}}"""
+    if not items:
+        return {}
+    hdr = LAYOUT_HEADER
+    rows = ";\n".join(b.coq() for _, b in items)
+    txt = (hdr + f"Definition cases : list body := [\n{rows}\n].\n"
+           "Eval vm_compute in (map (fun b => (wf_offenders b, linear_offenders b)) cases).\n")
+    ok, outs, err = common.run_case_files(prop + "_off", {"off": txt}, timeout=timeout)
+    if not ok:
+        raise RuntimeError("offender case file failed: " + err[-2000:])
+    v = common.coq_printed_values(outs["off"])[0]
+    # split top-level list elements "( [..], [..] )"
+    parts, depth, cur = [], 0, ""
+    for ch in v.strip()[1:-1]:
+        if ch in "([":
+            depth += 1
+        elif ch in ")]":
+            depth -= 1
+        if ch == ";" and depth == 0:
+            parts.append(cur)
+            cur = ""
+        else:
+            cur += ch
+    if cur.strip():
+        parts.append(cur)
+    res = {}
+    kinds = {0: "DHexOp", 1: "DHexOpVal", 2: "DPure", 3: "DEffect", 4: "DOther", 9: "param"}
+    for (jid, _), p in zip(items, parts):
+        p = p.replace("%N", "").replace("%nat", "")
+        i = p.index("],") if "]," in p else len(p)
+        wf = re.findall(r'"((?:[^"]|"")*)"', p[:i])
+        lin = [(kinds.get(int(a), a), h, int(r), int(n)) for a, h, r, n in re.findall(r'\((\d+),\s*"([^"]*)",\s*(\d+),\s*(\d+)\)', p[i:])]
+        res[jid] = {"wf": wf, "linear": lin}
+    return res
+
+
+def symptom_classes(off: dict) -> set[str]:
+    out = set()
+    for w in off.get("wf", []):
+        kind, _, name = w.partition(":")
+        if kind == "undeclared":
+            # classify by the shape of the name: operand handle, register / immediate variable, other
+            if name.endswith("_op"):
+                out.add("wf:undeclared-operand-handle")
+            elif re.match(r"^([A-Z][a-z]{1,2}(_new)?|[a-z]|[A-Z]\d+(_new)?|[a-z0-9_]+)$", name):
+                out.add("wf:undeclared-register-or-immediate-variable")
+            else:
+                out.add("wf:undeclared-other")
+        else:
+            out.add("wf:" + kind)
+    for kind, head, raw, n in off.get("linear", []):
+        out.add(f"linear:{kind}:{head if kind != 'param' else 'param'}:raw={min(raw, 2)}")
+    return out
+
+
+def probe_light(prop: str, cases, shard=120, timeout=900):
+    """wf_body / linear / denotes only (no model, no guard flags, no execution): {id: {...}}"""
+    files = {}
+    ids = [c[0] for c in cases]
+    shard = max(10, min(shard, -(-len(cases) // common.NPROC)))
+    for k in range(0, len(cases), shard):
+        rows = ";\n".join(c[-1].coq() for c in cases[k:k + shard])
+        files[f"light_{k // shard:04d}"] = (LAYOUT_HEADER + f"Definition cases : list body := [\n{rows}\n].\n"
+                                           "Eval vm_compute in (map (fun b => (match denote b with Some _ => true | None => false end, wf_body b, linear b)) cases).\n")
+    ok, outs, err = common.run_case_files(prop + "_light", files, timeout=timeout)
+    if not ok:
+        raise RuntimeError("light case files failed: " + err[-2500:])
+    res = {}
+    for name in sorted(outs):
+        k = int(name.split("_")[1]) * shard
+        v = common.coq_printed_values(outs[name])[0]
+        items = re.findall(r"\((true|false),\s*(true|false),\s*(true|false)\)", v)
+        for j, it in enumerate(items):
+            d, w, l = (x == "true" for x in it)
+            res[ids[k + j]] = {"flags": 0, "defined": 0, "bad": None, "sorted": True, "wf": w, "linear": l} if d else None
+    return res
